@@ -1262,8 +1262,18 @@ func (w *Writer) getBlockNames(global ir.GlobalVariable) (string, string) {
 	}
 	blockID := w.blockIDCounter
 	w.blockIDCounter++
-	blockName := fmt.Sprintf("%s_block_%d%s", typeName, blockID, stageName)
+	blockName := w.uniqueBlockName(fmt.Sprintf("%s_block_%d%s", typeName, blockID, stageName))
 	return blockName, instanceName
+}
+
+// uniqueBlockName passes a generated interface-block name through the namer: block names
+// share the global namespace with functions and variables, so a user identifier with the
+// same spelling must not end up next to it.
+func (w *Writer) uniqueBlockName(name string) string {
+	if w.namer == nil {
+		return name
+	}
+	return w.namer.call(name)
 }
 
 func (w *Writer) computeBlockNames(global ir.GlobalVariable) (string, string) {
@@ -1294,7 +1304,7 @@ func (w *Writer) computeBlockNames(global ir.GlobalVariable) (string, string) {
 
 	blockID := w.blockIDCounter
 	w.blockIDCounter++
-	blockName := fmt.Sprintf("%s_block_%d%s", typeName, blockID, stageName)
+	blockName := w.uniqueBlockName(fmt.Sprintf("%s_block_%d%s", typeName, blockID, stageName))
 	instanceName := fmt.Sprintf("_group_%d_binding_%d_%s", group, binding, stageSuffix)
 	return blockName, instanceName
 }
